@@ -309,7 +309,9 @@ func replacementImplRTL(data *syntax.ReplacerData, al *[]string, m *Match) {
 	l := *al
 	buf := &bytes.Buffer{}
 
-	for _, r := range data.Rules {
+	// al is emitted last-to-first, so this match's pieces go in reversed
+	for ri := len(data.Rules) - 1; ri >= 0; ri-- {
+		r := data.Rules[ri]
 		buf.Reset()
 		if r >= 0 { // string lookup
 			l = append(l, data.Strings[r])
